@@ -587,11 +587,11 @@ def gapchar_cases(rng, n_cases):
         if rng.random() < 0.1:
             chars = "-"      # no additional gap character at all
             subst = list(plain)
-        if any(x == "_" for x in subst):
-            continue         # `_` alone means the empty string in the protocol
         import itertools as _it
         orders = ["".join(p) for p in _it.permutations(chars)]
         ops = [f"fastagaps {o} {_seqs(subst)}" for o in orders]
+        if any(x == "_" for x in subst):
+            ops = []         # `_` alone means the empty string in the line protocol: oracle only
         yield {"kind": "fastagaps", "ops": ops, "stype": stype, "plain": plain, "subst": subst, "chars": chars}
 
 
@@ -646,7 +646,8 @@ def dist_cases(rng, n_cases):
         else:
             seqs = [[rng.randrange(size) for _ in range(rng.randint(1, 10))] for _ in range(2)]
         gap = rng.choice([-10, -5, -1, -3, (-10, -1), (-5, -2), (-2, -1)])
-        case = {"kind": "dist/" + style, "alph": "nuc", "seqs": seqs, "gap": list(gap) if isinstance(gap, tuple) else gap,
+        weird = rng.random() < 0.25      # off-diagonal scores above the diagonal: S can exceed S_max (hypothesis of C11_distance_defined)
+        case = {"kind": "dist/" + style + ("-weird" if weird else ""), "weird": weird, "alph": "nuc", "seqs": seqs, "gap": list(gap) if isinstance(gap, tuple) else gap,
                 "tp": rng.random() < 0.5, "dist": None, "tree": None, "mseed": rng.randint(0, 10 ** 6)}
         r = _run_dist(case)
         if r is not None and r.get("line"):
@@ -694,8 +695,54 @@ def fastareuse_cases(rng, n_cases):
         yield {"kind": "fastareuse", "alph": alph, "alis": alis, "rename_last": rng.random() < 0.3}
 
 
+def degenerate_cases(rng, n_cases):
+    """audit 6: alignments with ONE sequence (reachable through alignment[:, [k]]) through every op; zero sequences oracle-only"""
+    for _ in range(n_cases):
+        alph = rng.choice([NUC, PROT])
+        ln = rng.choice([0, 1, 2, 5])
+        start = rng.choice([0, 0, 2])
+        cols = [[start + i] for i in range(ln)]
+        s1 = _rand_seq(rng, alph[:20], start + ln + rng.choice([0, 1]))
+        ops = [f"set {alph} {s1 if s1 else '_'} {_tr(cols)}", "strings", "codes", "symbols", "termgaps", "rmterm", "rmgaps", "ident all", "ident nt",
+               "ident short", "pident all", "pident nt", "pident short", f"score {_matrix_text(rng, len(alph))} -4 -1 {rng.choice('01')}",
+               "fasta", "sel 0", "sel 0,0", "cigar_w 0 0 _ 0 0 0", "cigar_w 0 0 _ 1 1 1", "cols 0 1"]
+        yield {"kind": "degenerate/one-sequence", "ops": ops, "alph": alph, "seqs": [s1], "trace": cols}
+    yield {"kind": "degenerate/no-sequence", "ncol": 3}
+    yield {"kind": "degenerate/no-sequence", "ncol": 0}
+    yield {"kind": "degenerate/dash-symbol"}
+    for cig in ["\u0663M", "3\u00b2M", "99999999999999999999M", "2\u0660M1I"]:
+        yield {"kind": "degenerate/cigar-text", "cigar": cig}
+
+
+def alph256_cases(rng, n_cases):
+    """audit 6: the gap symbol of align_multiple gets the code len(alphabet); with exactly 256 symbols it does not fit the
+    uint8 code of the sequences (255 and 257 symbols as controls)"""
+    for _ in range(n_cases):
+        k = rng.choice([255, 256, 256, 257])
+        n = rng.choice([2, 3])
+        base = [rng.randrange(1, 12) for _ in range(rng.randint(4, 8))]
+        seqs = []
+        for i in range(n):
+            sq = list(base)
+            if i:
+                del sq[rng.randrange(len(sq))]
+            if rng.random() < 0.5:
+                sq.append(0)
+            seqs.append(sq)
+        dist = [[0.0 if i == j else 1.0 + 0.5 * abs(i - j) for j in range(n)] for i in range(n)]
+        case = {"kind": "msa/alph%d" % k, "alph": "big%d" % k, "seqs": seqs, "gap": -5, "tp": True, "dist": dist, "tree": None,
+                "mseed": rng.randint(0, 10 ** 6)}
+        if k != 256:
+            line = _msa_line(case)
+            if line is not None:
+                case["ops"] = [line]
+        yield case
+
+
 def cases(rng, tier):
     q = tier == "quick"
+    yield from degenerate_cases(rng, 25 if q else 300)
+    yield from alph256_cases(rng, 8 if q else 60)
     yield from fastareuse_cases(rng, 60 if q else 800)
     yield from history_cases(rng, 120 if q else 2500)
     yield from spell_cases(rng, 60 if q else 1000)
@@ -1034,6 +1081,9 @@ def _msa_inputs(case):
     elif case["alph"] == "prot":
         alphabet = seq.ProteinSequence.alphabet
         mk = lambda codes: _with_code(seq.ProteinSequence(), codes)         # noqa: E731
+    elif case["alph"].startswith("big"):
+        alphabet = seq.Alphabet(range(int(case["alph"][3:])))
+        mk = lambda codes: _with_code(seq.GeneralSequence(alphabet), codes)  # noqa: E731
     else:
         alphabet = seq.Alphabet(list("abcdef"))
         mk = lambda codes: _with_code(seq.GeneralSequence(alphabet), codes)  # noqa: E731
@@ -1041,7 +1091,7 @@ def _msa_inputs(case):
     m = np.zeros((k, k), dtype=np.int32)
     for i in range(k):
         for j in range(i, k):
-            m[i, j] = m[j, i] = r.randint(-4, 2) if i != j else r.randint(3, 9)
+            m[i, j] = m[j, i] = (r.randint(-4, 2) if not case.get("weird") else r.randint(-2, 12)) if i != j else r.randint(3, 9)
     matrix = align.SubstitutionMatrix(alphabet, alphabet, m)
     same = case.get("same") or list(range(len(case["seqs"])))
     objs = {}
@@ -1138,7 +1188,9 @@ def _dist_call(case):
         except ZeroDivisionError:
             outcome = "zeroDivision"
         except ValueError as e:
-            outcome = "infinite" if "contains infinity" in str(e) else "belowRandom" if "randomized alignment" in str(e) else "other:" + str(e)[:40]
+            msg = str(e)
+            outcome = ("infinite" if "contains infinity" in msg else "belowRandom" if "randomized alignment" in msg else
+                       "negative" if "must be positive" in msg else "notANumber" if "must be symmetric" in msg or "NaN" in msg else "other:" + msg[:40])
     finally:
         M.align_optimal = orig
     if len(calls) < 3:
@@ -1164,7 +1216,7 @@ _DIST_CACHE = {}
 
 def _run_dist(case):
     from common import sandbox, util
-    key = util.jdump({k: v for k, v in case.items() if k in ("alph", "seqs", "gap", "tp", "mseed")})
+    key = util.jdump({k: v for k, v in case.items() if k in ("alph", "seqs", "gap", "tp", "mseed", "weird")})
     if key not in _DIST_CACHE:
         import biotite.sequence.align.multiple  # noqa: F401
         import biotite.sequence.phylo  # noqa: F401
@@ -1178,7 +1230,7 @@ _MSA_CACHE = {}
 
 def _run_msa(case):
     from common import sandbox, util
-    key = util.jdump({k: v for k, v in case.items() if k in ("alph", "seqs", "gap", "tp", "dist", "tree", "mseed", "same", "spell")})
+    key = util.jdump({k: v for k, v in case.items() if k in ("alph", "seqs", "gap", "tp", "dist", "tree", "mseed", "same", "spell", "weird")})
     if key not in _MSA_CACHE:
         import biotite.sequence.align.multiple  # noqa: F401  (import in the parent: the forked child must not pay for it)
         import biotite.sequence.phylo  # noqa: F401
@@ -1199,7 +1251,7 @@ def _msa_line(case):
     if r[0] != "ok":
         return None
     _ali, _order, tree, calls, _after = r[1]
-    k = {"nuc": 4, "prot": 24, "gen": 6}[case["alph"]]
+    k = int(case["alph"][3:]) if case["alph"].startswith("big") else {"nuc": 4, "prot": 24, "gen": 6}[case["alph"]]
     return f"msa {k} {_codes(case['seqs'])} {tree} " + ("|".join(_tr(c) for c in calls) if calls else "_")
 
 
@@ -1250,6 +1302,10 @@ def oracle(case):
         return _oracle_big(case)
     if kind == "fastagaps":
         return _oracle_gapchars(case)
+    if kind.startswith("degenerate/"):
+        return _oracle_degenerate(case)
+    if kind.startswith("malformed/"):
+        return _oracle_malformed(case)
     if kind == "fastareuse":
         return _oracle_fastareuse(case)
     if kind == "history":
@@ -1275,8 +1331,8 @@ def _oracle_gapchars(case):
     v = []
     try:
         ref = _read_gapped(case["stype"], case["plain"], ())
-    except Exception:
-        return []
+    except Exception as e:  # noqa: BLE001
+        return [("C11/fasta/plain-text-rejected", f"{case['plain']}: {type(e).__name__}: {e}")]
     want = ([str(x) for x in ref.sequences], ref.trace.tolist())
     chars = [c for c in case["chars"] if c != "-"]
     # seq_type=None: the type is detected from the text; text and trace must be the same
@@ -1356,10 +1412,18 @@ def _oracle_fromstrings(case):
     """a parsed alignment has a valid trace (unless a column is all gaps in the text, which the text format cannot forbid)"""
     from biotite.sequence.align import Alignment
     strs = case["strs"]
+    wellformed = len(strs) >= 2 and all(len(x) >= len(strs[0]) for x in strs)
     try:
         t = Alignment.trace_from_strings(strs).tolist()
-    except Exception:
+    except (ValueError, IndexError) as e:
+        # documented refusals only: fewer than two strings (ValueError), a later string shorter than the first (IndexError)
+        if wellformed:
+            return [("C11/trace_from_strings/well-formed-input-rejected", f"{strs}: {type(e).__name__}: {e}")]
+        if (len(strs) < 2) != isinstance(e, ValueError):
+            return [("C11/trace_from_strings/wrong-refusal", f"{strs}: {type(e).__name__}: {e}")]
         return []
+    if not wellformed:
+        return [("C11/trace_from_strings/malformed-input-accepted", f"{strs} -> {t}")]
     v = []
     n = len(strs)
     for k in range(n):
@@ -1385,9 +1449,18 @@ def _oracle_cigar_read(case):
     for op in case["ops"]:
         w = op.split()
         cig = "" if w[1] == "_" else w[1]
+        toks0 = re.findall(r"(\d+)([MIDNSHP=XB])", cig)
+        well = "".join(a + b for a, b in toks0) == cig
+        supported = well and all(b in "MIDNSH=X" for _, b in toks0)
         try:
             t = align.read_alignment_from_cigar(cig, int(w[2]), ref, ref).trace.tolist()
-        except Exception:
+        except (ValueError, KeyError) as e:
+            # allowed refusals: unknown operation letter (KeyError), missing count or P/B operation (ValueError)
+            if supported:
+                v.append(("C11/cigar/read/well-formed-cigar-rejected", f"{cig!r}: {type(e).__name__}: {e}"))
+            continue
+        if well and not supported:
+            v.append(("C11/cigar/read/unsupported-operation-accepted", f"{cig!r} -> {t}"))
             continue
         toks = re.findall(r"(\d+)([MIDNSHP=XB])", cig)
         if "".join(a + b for a, b in toks) == cig and toks:
@@ -1583,6 +1656,14 @@ def _oracle_trace(case):
     for ri, si in ([(0, 1), (1, 0)] if n == 2 else [(0, 1), (n - 1, 0)]):
         pair = [[c[ri], c[si]] for c in cols]
         if any(c[0] < 0 and c[1] < 0 for c in pair) or not any(c[1] >= 0 for c in pair):
+            # outside the writer's domain (C11_cigar_accept): it must refuse, with IndexError (no aligned segment base) or ValueError
+            for itg in (False, True):
+                try:
+                    cg = align.write_alignment_to_cigar(ali, ri, si, include_terminal_gaps=itg)
+                    if any(c[0] < 0 and c[1] < 0 for c in (pair if itg else _trim(pair))) or not any(c[1] >= 0 for c in pair):
+                        v.append(("C11/cigar/write/unwritable-trace-accepted", f"{pair} include_terminal_gaps={itg} -> {cg!r}"))
+                except (ValueError, IndexError):
+                    pass
             continue
         if not (_contig(pair, 0) and _contig(pair, 1)):
             # skipped positions cannot be written as a CIGAR: the written part must be refused, not written as matches
@@ -1810,6 +1891,92 @@ def _fresh(ali):
     return Alignment([s.copy() for s in ali.sequences], ali.trace.copy(), ali.score)
 
 
+def _oracle_degenerate(case):
+    """audit 6: regions the theorems exclude by hypothesis - what the code does there is pinned down"""
+    import numpy as np
+    import biotite.sequence as seq
+    import biotite.sequence.align as align
+    kind = case["kind"]
+    v = []
+    if kind == "degenerate/one-sequence":
+        alph, strs, cols = case["alph"], case["seqs"], case["trace"]
+        ali = _mkali(alph, strs, cols)
+        codes = [alph.index(c) for c in strs[0]]
+        want = {"gapped": ["".join(strs[0][c[0]] for c in cols)], "codes": [[codes[c[0]] for c in cols]], "rmgaps": cols,
+                "termgaps": (0, len(cols))}
+        got = {}
+        for name, fn in (("gapped", lambda: ali.get_gapped_sequences()), ("codes", lambda: align.get_codes(ali).tolist()),
+                         ("rmgaps", lambda: align.remove_gaps(ali).trace.tolist()), ("termgaps", lambda: tuple(align.find_terminal_gaps(ali)))):
+            try:
+                got[name] = fn()
+            except Exception as e:  # noqa: BLE001
+                got[name] = "ERR:" + type(e).__name__
+            if got[name] != want[name]:
+                v.append((f"C11/degenerate/one-sequence/{name}", f"{strs} {cols}: {got[name]}, expected {want[name]}"))
+        try:
+            align.Alignment.trace_from_strings(ali.get_gapped_sequences())
+            v.append(("C11/strings/single-string-accepted", f"trace_from_strings accepted one string for {strs}"))
+        except ValueError:
+            pass
+        if cols:
+            got_id = align.get_sequence_identity(ali, "all")
+            if abs(got_id - 1.0) > 1e-12:
+                v.append(("C11/degenerate/one-sequence/identity", f"{strs} {cols}: identity {got_id}"))
+    elif kind == "degenerate/no-sequence":
+        a0 = align.Alignment([], np.zeros((case["ncol"], 0), dtype=int))
+        try:
+            r = align.find_terminal_gaps(a0)
+            v.append(("C11/helpers/find_terminal_gaps/no-sequence-accepted", f"{case['ncol']} columns, no sequence -> {r}"))
+        except ValueError:
+            pass                      # C11_terminal_gaps_spec: n = 0 -> ValueError
+    elif kind == "degenerate/dash-symbol":
+        # C11_strings_needs_no_gap_symbol: the text cannot tell the symbol '-' from a gap (replay of the witness)
+        al = seq.Alphabet(["a", "-", "b"])
+        a = align.Alignment([seq.GeneralSequence(al, ["a", "-", "b"]), seq.GeneralSequence(al, ["a", "b"])], np.array([[0, 0], [1, -1], [2, 1]]))
+        gs = a.get_gapped_sequences()
+        if gs != ["a-b", "a-b"] or align.Alignment.trace_from_strings(gs).tolist() != [[0, 0], [-1, -1], [1, 1]]:
+            v.append(("C11/strings/dash-symbol-witness-changed", f"{gs} {align.Alignment.trace_from_strings(gs).tolist()}"))
+    elif kind == "degenerate/cigar-text":
+        # counts written with non-ASCII digits / beyond int64: either read like the ASCII spelling or refused, never something else
+        import unicodedata
+        ref = seq.NucleotideSequence("A" * 60)
+        cig = case["cigar"]
+        try:
+            t = align.read_alignment_from_cigar(cig, 0, ref, ref).trace.tolist()
+        except (ValueError, OverflowError, KeyError):
+            return v
+        try:
+            plain = "".join(str(unicodedata.digit(c)) if c.isdigit() and not c.isascii() else c for c in cig)
+            t2 = align.read_alignment_from_cigar(plain, 0, ref, ref).trace.tolist()
+        except Exception:  # noqa: BLE001
+            t2 = None
+        if t != t2:
+            v.append(("C11/cigar/read/non-ascii-count", f"{cig!r} -> {t}, ASCII spelling -> {t2}"))
+    return v
+
+
+def _oracle_malformed(case):
+    """audit 6: invalid alignments - an index outside its sequence must be refused (IndexError), never read as another symbol"""
+    import biotite.sequence.align as align
+    w = case["ops"][0].split()
+    strs, cols = _parse_strs(w[2]), _parse_trace(w[3])
+    out_of_range = any(x >= len(strs[k]) for c in cols for k, x in enumerate(c) if k < len(strs))
+    if not out_of_range:
+        return []
+    ali = _mkali(w[1], strs, cols)
+    v = []
+    for name, fn in (("get_gapped_sequences", lambda: ali.get_gapped_sequences()), ("get_codes", lambda: align.get_codes(ali)),
+                     ("get_symbols", lambda: align.get_symbols(ali)), ("get_sequence_identity", lambda: align.get_sequence_identity(ali, "all"))):
+        try:
+            r = fn()
+            v.append((f"C11/malformed/index-outside-sequence-accepted/{name}", f"{strs} {cols}: {name} returned {str(r)[:100]}"))
+        except IndexError:
+            pass
+        except Exception as e:  # noqa: BLE001
+            v.append((f"C11/malformed/index-outside-sequence/{name}/{type(e).__name__}", f"{strs} {cols}: {e}"))
+    return v
+
+
 def _oracle_fastareuse(case):
     """a FastaFile that already holds an alignment under the same names gives, after set_alignment(), exactly what a fresh
     FastaFile gives: in memory, and after writing and reading the file"""
@@ -2033,6 +2200,9 @@ def _oracle_dist(case):
         return [("C11/msa/distances/infinite-distance", what)]
     if r["outcome"].startswith("other"):
         return [("C11/msa/distances/other-rejection", what)]
+    if r["outcome"] in ("negative", "notANumber") and not (r.get("num") is not None and r["num"] > r["den"]):
+        # only S > S_max (mismatches outscoring matches) may be refused as a negative / undefined distance
+        return [("C11/msa/distances/refused-although-S-below-Smax", what)]
     return []
 
 
@@ -2066,6 +2236,11 @@ def _oracle_msa(case):
     what = f"seqs={case['seqs']} same={case.get('same')} gap={case['gap']} tp={case['tp']} tree={case['tree']} -> trace={cols} order={order} tree={tree}"
     if any(len(c) != n for c in cols) or len(out_seqs) != n:
         return [("C11/msa/row-count", what)]
+    if case["alph"] == "big256":
+        # known finding: the gap symbol's code 256 does not fit the uint8 codes and is stored as 0
+        if [list(s) for s in out_seqs] != [list(s) for s in case["seqs"]] or any(idx != list(range(len(sq))) for idx, sq in
+                zip([[c[k] for c in cols if c[k] >= 0] for k in range(n)], case["seqs"])):
+            return [("C11/msa/gap-code-overflows-code-dtype", what + f" sequences={out_seqs}")]
     if [list(s) for s in out_seqs] != [list(s) for s in case["seqs"]]:
         v.append(("C11/msa/sequences-not-in-input-order", what + f" sequences={out_seqs}"))
     for k in range(n):
